@@ -4,13 +4,13 @@ import json, sys, os
 V = os.path.dirname(os.path.dirname(os.path.abspath(__file__)))
 TECH = "deterministic simulation with fault injection: seeded search over plans (schedules + fault sequences) executed against the real application; model/ground-truth oracles after every transaction; ddmin-shrunk replay files"
 checks = {
- "C01": ("xr", "§4 C01", "Seeded simulated relay histories (duplicates, races between relayers, re-submission of old messages with old and fresh proofs, re-encoded/altered payloads, same-block packing, crash/restart) against 2-3 real chains, plus BSC/ETH stub counterparties that choose sequences over the whole uint64 range, a TSS-secured counterparty, full export/restart of a chain and governance replacing a counterparty's light client (toggle to TSS and back, upgrade) in the middle of a history (receipts must survive); oracle: per-triple accept count, reject=>state unchanged, target-contract call counter, one ack. Fifth wave: many packets in flight across an export/restart (no receipt may be lost), acknowledgements of the BSC world proven by storage proofs. Exploration, not proof."),
- "C02": ("xr", "§4 C02", "Every accepted receive/ack is compared with ground truth read from the counterparty's committed store at the claimed proof height and with the set of heights the light client accepted itself; all transport corruptions (incl. revision-only height changes and byte forms that decode to the same value) must be rejected without state change. EVM-proved receives (BSC/ETH stub counterparties) are accepted only at heights the installed client vouches for, also after a governance rollback that leaves stale consensus states above the head."),
- "C03": ("xr", "§4 C03", "Exact value ledger (balances of every tracked account in every token, endpoint outTokens/bindings, supplies) predicted per accepted send/receive/ack incl. failing destination execution; cross-chain escrow==minted equation at quiescence."),
- "C04": ("xr", "§4 C04", "Model of per-destination sequence numbers, commitments and the two counters checked after every send transaction, valid and invalid, packed and reordered, including several sends performed by one transaction (multicall contract), sends nested in a receive (agent contract), non-zero fee options, and look-alike PacketSent events emitted by an unprivileged contract (nothing may be committed for them)."),
+ "C01": ("xr", "§4 C01", "Seeded simulated relay histories (duplicates, races between relayers, re-submission of old messages with old and fresh proofs, re-encoded/altered payloads, same-block packing, crash/restart) against 2-3 real chains, plus BSC/ETH stub counterparties that choose sequences over the whole uint64 range, a TSS-secured counterparty, full export/restart of a chain and governance replacing a counterparty's light client (toggle to TSS and back, upgrade) in the middle of a history (receipts must survive); oracle: per-triple accept count, reject=>state unchanged, target-contract call counter, one ack. Fifth wave: many packets in flight across an export/restart (no receipt may be lost), acknowledgements of the BSC world proven by storage proofs. Sixth wave: counterparty sequences a window (powers of two and ten) apart, delivered in order and then the older one again with a fresh proof. Exploration, not proof."),
+ "C02": ("xr", "§4 C02", "Every accepted receive/ack is compared with ground truth read from the counterparty's committed store at the claimed proof height and with the set of heights the light client accepted itself; all transport corruptions (incl. revision-only height changes and byte forms that decode to the same value) must be rejected without state change. EVM-proved receives (BSC/ETH stub counterparties) are accepted only at heights the installed client vouches for, also after a governance rollback that leaves stale consensus states above the head. Sixth wave: acknowledgements from the ETH stub, replay of another packet's acknowledgement under a spliced 64-byte storage key."),
+ "C03": ("xr", "§4 C03", "Exact value ledger (balances of every tracked account in every token, endpoint outTokens/bindings, supplies) predicted per accepted send/receive/ack incl. failing destination execution; cross-chain escrow==minted equation at quiescence. Sixth wave: destination calls that succeed with kilobytes of return data."),
+ "C04": ("xr", "§4 C04", "Model of per-destination sequence numbers, commitments and the two counters checked after every send transaction, valid and invalid, packed and reordered, including several sends performed by one transaction (multicall contract), sends nested in a receive (agent contract), non-zero fee options, and look-alike PacketSent events emitted by an unprivileged contract (nothing may be committed for them). Sixth wave: destinations spelled like a known chain name (trailing slash, dot segments, case, padding): no client of that name, so nothing may be committed."),
  "C05": ("xr", "§4 C05", "Ack life-cycle model: one ack per accepted receive in the same tx, monotone ack store, commitment removed only by the verified ack of exactly that packet, processed at most once (status, fee, callback counter); where the destination execution certainly fails (reverting target, failing post-transaction hook, nested send without client) the acknowledgement must be an error acknowledgement. Fifth wave: source-side acknowledgement callbacks that fail (the acknowledgement must not count as processed), acknowledgements relayed after the counterparty's client was toggled, BSC-world acknowledgements under storage proofs."),
- "C06": ("xr", "§4 C06", "ACL table oracle over signers x message kinds x registries and over callers/call paths of every privileged contract method; rejected attempts must leave state unchanged. A TSS-secured counterparty: receives and acknowledgements are accepted only from the TSS account whatever the proof field carries; relayers declaring another relayer's remote address; updates of the TSS client only by the TSS account while it is registered for that chain."),
- "C19": ("xr", "§4 C19", "End-to-end deliverability and store read-back refinement over simulated histories: every packet and acknowledgement that travels is decoded with teleport's codec and compared field by field with an independent decoder and re-encoded; consensus heights/revisions with special bytes, counterparty sequences over the whole uint64 range and chain names that are path words are written and read back through the keepers' iterators; canonical packet paths. Narrower than the statement: the codec's full input space is not a simulation target."),
+ "C06": ("xr", "§4 C06", "ACL table oracle over signers x message kinds x registries and over callers/call paths of every privileged contract method; rejected attempts must leave state unchanged. A TSS-secured counterparty: receives and acknowledgements are accepted only from the TSS account whatever the proof field carries; relayers declaring another relayer's remote address; updates of the TSS client only by the TSS account while it is registered for that chain. Sixth wave: the TSS group rotates between two accounts (with new or unchanged group key); the replaced account must lose all authority at once."),
+ "C19": ("xr", "§4 C19", "End-to-end deliverability and store read-back refinement over simulated histories: every packet and acknowledgement that travels is decoded with teleport's codec and compared field by field with an independent decoder and re-encoded; consensus heights/revisions with special bytes, counterparty sequences over the whole uint64 range and chain names that are path words are written and read back through the keepers' iterators; canonical packet paths; sixth wave: chain names that are prefixes of one another, read back by path through the keeper iteration and the two gRPC list queries. Narrower than the statement: the codec's full input space is not a simulation target."),
 }
 pending = {}
 allp = [json.loads(l)["id"] for l in open(os.path.join(V, "properties.jsonl"))]
